@@ -86,9 +86,16 @@ type execGen struct {
 	defs   []obj
 	nprobe int
 	blocks int
+	closed []int // blocks whose body is complete
+	// names bound by enclosing constructs (loop variables, macro parameters): worth reading, they change between evaluations
+	scopeVars []string
+	lib       bool // the program imports the macro library
+	uses      bool // the program uses the block library
+	rich      bool // the wider grammar (second half of every run)
 }
 
 func (g *execGen) pick(xs ...string) string { return xs[g.rng.Intn(len(xs))] }
+func (g *execGen) pickE(xs ...obj) obj        { return xs[g.rng.Intn(len(xs))] }
 
 // small expressions that stay inside the reference's region most of the time
 func (g *execGen) atom() obj {
@@ -100,6 +107,9 @@ func (g *execGen) atom() obj {
 	case 3:
 		return eStr(g.pick("", "a", "ab", "x-", "Q"))
 	case 4, 5:
+		if len(g.scopeVars) > 0 && g.rng.Intn(3) == 0 {
+			return eName(g.scopeVars[g.rng.Intn(len(g.scopeVars))])
+		}
 		return eName(g.vars[g.rng.Intn(len(g.vars))])
 	case 6:
 		return obj{"k": "bool", "b": g.rng.Intn(2) == 0}
@@ -118,6 +128,34 @@ func (g *execGen) expr(depth int) obj {
 			return eGrp(e)
 		}
 		return e
+	}
+	if g.rich && g.rng.Intn(3) == 0 {
+		switch g.rng.Intn(9) {
+		case 0:
+			return eBin(g.pick("in", "not in"), sub(), g.pickE(eName("arr"), eName("h"), eStr("xab"), obj{"k": "arr", "els": []obj{g.atom(), g.atom()}}, eGrp(eBin("..", eInt(1), eInt(3)))))
+		case 1:
+			return eBin(g.pick("starts with", "ends with"), g.pickE(eName("y"), eStr("abc"), g.atom()), g.pickE(eStr("a"), eStr("b"), eStr(""), g.atom()))
+		case 2:
+			// the pattern is a literal, a context variable or whatever is in scope (a loop variable, a macro parameter)
+			return eBin("matches", g.pickE(eName("y"), eStr("abc"), eStr("b")), g.pickE(eStr("^a"), eStr("b$"), eName("pat"), g.atom()))
+		case 3:
+			return eBin(g.pick("b-and", "b-or", "b-xor"), eInt(g.rng.Intn(8)), g.pickE(eInt(g.rng.Intn(8)), eName("x")))
+		case 4:
+			return obj{"k": "test", "x": sub(), "neg": g.rng.Intn(2) == 0, "name": "divisible by", "args": []obj{eInt(1 + g.rng.Intn(3))}}
+		case 5:
+			op := g.pick("not", "-")
+			return obj{"k": "un", "op": op, "x": obj{"k": "un", "op": g.pick(op, "not", "-"), "x": sub()}}
+		case 6:
+			hs := obj{"k": "hash", "pairs": [][]obj{{eName("k"), sub()}, {eStr("j"), g.atom()}}}
+			if g.rng.Intn(2) == 0 {
+				return eAttrDot(hs, g.pick("k", "j", "nope"))
+			}
+			return eAttrBr(hs, eStr(g.pick("k", "j")))
+		case 7:
+			return obj{"k": "tern", "c": sub(), "t": sub(), "f": eGrp(obj{"k": "tern", "c": sub(), "t": g.atom(), "f": g.atom()})}
+		default:
+			return eAttrBr(eName("arr"), g.pickE(eInt(g.rng.Intn(4)), eName("x"), g.atom()))
+		}
 	}
 	switch g.rng.Intn(12) {
 	case 0, 1, 2:
@@ -182,7 +220,10 @@ func (g *execGen) stmts(depth, n int, inMacro bool) []obj {
 
 func (g *execGen) stmt(depth int, inMacro bool) []obj {
 	r := g.rng.Intn(16)
-	if depth <= 0 && r >= 5 {
+	if g.rich {
+		r = g.rng.Intn(22) // 15..21: the constructs of the wider grammar
+	}
+	if depth <= 0 && r >= 5 && r < 15 {
 		r = g.rng.Intn(5)
 	}
 	switch r {
@@ -204,7 +245,11 @@ func (g *execGen) stmt(depth int, inMacro bool) []obj {
 		he := g.rng.Intn(2) == 0
 		els := []obj{}
 		if he {
-			els = g.stmts(depth-1, 1, inMacro)
+			ne := 1
+			if g.rich {
+				ne = 1 + g.rng.Intn(3)
+			}
+			els = g.stmts(depth-1, ne, inMacro)
 		}
 		return []obj{sIf(br, els, he)}
 	case 7, 8:
@@ -214,7 +259,10 @@ func (g *execGen) stmt(depth int, inMacro bool) []obj {
 		}
 		vn := g.pick("v", "x", "w")
 		cond := noE
+		saved := g.scopeVars
+		g.scopeVars = append(append([]string{}, saved...), vn)
 		body := g.stmts(depth-1, 1+g.rng.Intn(2), inMacro)
+		g.scopeVars = saved
 		if g.rng.Intn(4) == 0 {
 			cond = eBin(">", eName(vn), eInt(1))
 		} else {
@@ -231,7 +279,17 @@ func (g *execGen) stmt(depth int, inMacro bool) []obj {
 		v := g.pick("c1", "c2")
 		return []obj{sSetCap(v, g.stmts(depth-1, 1+g.rng.Intn(2), inMacro)), sPrint(eName(v))}
 	case 10:
-		return []obj{sFilter([]string{g.pick("up", "wrap", "rec")}, g.stmts(depth-1, 1+g.rng.Intn(2), inMacro))}
+		names := []string{g.pick("up", "wrap", "rec")}
+		if g.rich {
+			for k := g.rng.Intn(3); k > 0; k-- {
+				names = append(names, g.pick("up", "wrap", "rec"))
+			}
+		}
+		nb := 1 + g.rng.Intn(2)
+		if g.rich && g.rng.Intn(5) == 0 {
+			nb = 0 // a section that captures nothing
+		}
+		return []obj{sFilter(names, g.stmts(depth-1, nb, inMacro))}
 	case 11:
 		if inMacro {
 			return []obj{sText("m")}
@@ -239,18 +297,39 @@ func (g *execGen) stmt(depth int, inMacro bool) []obj {
 		g.macros++
 		name := fmt.Sprintf("m%d", g.macros)
 		params := []string{"p1", "p2"}[:g.rng.Intn(3)]
+		if g.rich && g.rng.Intn(2) == 0 {
+			params = [][]string{{"x"}, {"x", "y"}, {"y", "x"}, {"p1", "x"}, {"v", "p1"}}[g.rng.Intn(5)]
+		}
 		body := []obj{sText("M(")}
 		for _, p := range params {
 			body = append(body, sPrint(eName(p)), sText(","))
 		}
+		saved := g.scopeVars
+		g.scopeVars = append([]string{}, params...)
 		body = append(body, g.stmts(depth-1, 1, true)...)
+		g.scopeVars = saved
 		body = append(body, sText(")"))
 		g.defs = append(g.defs, sMacro(name, params, body))
-		args := []obj{}
-		for i := g.rng.Intn(3); i > 0; i-- {
-			args = append(args, g.atom())
+		mkargs := func() []obj {
+			args := []obj{}
+			for i := g.rng.Intn(3); i > 0; i-- {
+				if g.rich && g.rng.Intn(2) == 0 {
+					args = append(args, g.expr(1))
+				} else {
+					args = append(args, g.atom())
+				}
+			}
+			return args
 		}
-		return []obj{sPrint(eAttrCall(eName("_self"), name, args...))}
+		out := []obj{sPrint(eAttrCall(eName("_self"), name, mkargs()...))}
+		if g.rich && g.rng.Intn(3) == 0 {
+			// the same macro again with other arguments, and once as the argument of itself
+			out = append(out, sText("+"), sPrint(eAttrCall(eName("_self"), name, mkargs()...)))
+			if len(params) > 0 && g.rng.Intn(2) == 0 {
+				out = append(out, sPrint(eAttrCall(eName("_self"), name, append([]obj{g.atom()}, eAttrCall(eName("_self"), name, mkargs()...))...)))
+			}
+		}
+		return out
 	case 12:
 		with := noE
 		if g.rng.Intn(2) == 0 {
@@ -262,7 +341,10 @@ func (g *execGen) stmt(depth int, inMacro bool) []obj {
 			return []obj{sText("b")}
 		}
 		g.blocks++
-		return []obj{sBlock(fmt.Sprintf("b%d", g.blocks), g.stmts(depth-1, 1+g.rng.Intn(2), inMacro))}
+		nb := g.blocks
+		bl := sBlock(fmt.Sprintf("b%d", nb), g.stmts(depth-1, 1+g.rng.Intn(2), inMacro))
+		g.closed = append(g.closed, nb) // only complete blocks may be named by block(): no recursion
+		return []obj{bl}
 	case 14:
 		if g.rng.Intn(2) == 0 {
 			with := noE
@@ -277,7 +359,56 @@ func (g *execGen) stmt(depth int, inMacro bool) []obj {
 		}
 		return []obj{obj{"k": "do", "x": eCall("id", g.expr(1))}}
 	default:
-		return []obj{obj{"k": "comment", "d": bytesOf(" c ")}}
+		if !g.rich {
+			return []obj{obj{"k": "comment", "d": bytesOf(" c ")}}
+		}
+		switch g.rng.Intn(7) {
+		case 0: // block() of a block defined earlier (or not at all: an error)
+			if len(g.closed) > 0 && !inMacro {
+				return []obj{sText("<"), sPrint(eCall("block", eStr(fmt.Sprintf("b%d", g.closed[g.rng.Intn(len(g.closed))])))), sText(">")}
+			}
+			return []obj{sText("nb")}
+		case 1: // blocks imported with use
+			g.uses = true
+			return []obj{sPrint(eCall("block", eStr(g.pick("ub", "ub", "uc"))))}
+		case 2, 3: // library macros through an alias and through from-import
+			g.lib = true
+			a1, a2 := g.expr(1), g.atom()
+			switch g.rng.Intn(4) {
+			case 0:
+				return []obj{sPrint(eAttrCall(eName("L"), "lm1", a1))}
+			case 1:
+				return []obj{sPrint(eAttrCall(eName("L"), "lm2", a1, a2))}
+			case 2:
+				return []obj{sPrint(eCall("lm1", a1))}
+			default:
+				return []obj{sPrint(eCall("q2", a2, a1)), sPrint(eCall("q2", eName("y"), eName("x")))}
+			}
+		case 4: // include: name computed, variables handed over as a hash variable
+			x := g.pickE(eStr("inc"), eBin("~", eStr("in"), eStr("c")), eName("incname"))
+			with := g.pickE(noE, eName("h"), obj{"k": "hash", "pairs": [][]obj{{eName("y"), g.atom()}, {eName("x"), g.atom()}}})
+			return []obj{sInclude(x, with, g.rng.Intn(2) == 0)}
+		case 5: // embed whose override calls parent()
+			blocks := []obj{obj{"name": "eb", "body": []obj{sText("o("), sPrint(eCall("parent")), sText(")"), sPrint(eName("x"))}}}
+			return []obj{obj{"k": "embed", "x": eStr("emb"), "with": noE, "only": g.rng.Intn(3) == 0, "blocks": blocks}}
+		default:
+			if g.rng.Intn(3) > 0 {
+				return []obj{obj{"k": "comment", "d": bytesOf(" c ")}}
+			}
+			// a statement that fails at run time: the error is returned and nothing is written after it
+			switch g.rng.Intn(5) {
+			case 0:
+				return []obj{sPrint(eCall("nosuchfunc"))}
+			case 1:
+				return []obj{sPrint(ePipe(g.atom(), "nosuchfilter"))}
+			case 2:
+				return []obj{sInclude(eStr("missing"), noE, false)}
+			case 3:
+				return []obj{sPrint(eBin("%", eInt(1+g.rng.Intn(5)), eInt(0)))}
+			default:
+				return []obj{sPrint(eCall("block", eStr("nosuchblock")))}
+			}
+		}
 	}
 }
 
@@ -299,13 +430,47 @@ func init() {
 			depth = 5
 		}
 		for i := 0; i < n; i++ {
-			g := &execGen{rng: rng, vars: []string{"x", "y", "z", "arr", "s", "undefined_one"}}
+			g := &execGen{rng: rng, vars: []string{"x", "y", "z", "arr", "s", "undefined_one"}, rich: i%2 == 1}
+			if g.rich {
+				g.vars = append(g.vars, "h", "pat", "t")
+			}
 			body := g.stmts(1+rng.Intn(depth), 2+rng.Intn(4), false)
-			main := append(append([]obj{}, g.defs...), body...)
+			main := append([]obj{}, g.defs...)
+			if g.uses {
+				main = append(main, obj{"k": "use", "x": eStr("u"), "aliases": [][]string{}})
+			}
+			if g.lib {
+				main = append(main, obj{"k": "import", "x": eStr("lib"), "alias": "L"},
+					obj{"k": "from", "x": eStr("lib"), "imports": [][]string{{"lm1", "lm1"}, {"lm2", "q2"}}})
+			}
+			main = append(main, body...)
 			tpls := obj{"t": main, "inc": []obj{sText("<"), sPrint(eName("x")), sPrint(eName("y")), sSet("x", eInt(99)), sText(">")},
 				"emb": []obj{sText("E["), sSet("q", eInt(1)), sBlock("eb", []obj{sText("d")}), sPrint(eName("x")), sSet("x", eInt(7)), sText("]")}}
+			tpls["lib"] = []obj{
+				sMacro("lm1", []string{"a"}, []obj{sText("lm1("), sPrint(eName("a")), sText(")"), sPrint(eCall("nul", eStr("lib")))}),
+				sMacro("lm2", []string{"x", "b"}, []obj{sText("lm2("), sPrint(eName("x")), sText(","), sPrint(eName("b")), sText(")")}),
+			}
+			tpls["u"] = []obj{sBlock("ub", []obj{sText("UB"), sPrint(eName("x"))}), sBlock("uc", []obj{sText("UC")})}
 			entry := "t"
-			if rng.Intn(4) == 0 {
+			if g.rich && rng.Intn(4) == 0 {
+				// three levels: child -> mid -> t; mid passes everything through or overrides the first block
+				mid := []obj{sExtends(eStr("t"))}
+				if g.blocks > 0 && rng.Intn(2) == 0 {
+					mid = append(mid, sBlock("b1", []obj{sText("M["), sPrint(eCall("parent")), sText("]")}))
+				}
+				child := []obj{sExtends(eStr("mid"))}
+				if rng.Intn(2) == 0 {
+					child = append(child, obj{"k": "use", "x": eStr("u"), "aliases": [][]string{}})
+				}
+				for b := 1; b <= g.blocks; b++ {
+					if rng.Intn(2) == 0 {
+						child = append(child, sBlock(fmt.Sprintf("b%d", b), []obj{sText("C["), sPrint(eCall("parent")), sText("]"), g.probe()}))
+					}
+				}
+				tpls["mid"] = mid
+				tpls["child"] = child
+				entry = "child"
+			} else if rng.Intn(4) == 0 {
 				// an inheriting entry template: overrides the program's blocks, calls parent()
 				child := []obj{sExtends(eStr("t"))}
 				for b := 1; b <= g.blocks; b++ {
@@ -320,6 +485,12 @@ func init() {
 				"x": jv("num", "q", 5*64), "y": jv("str", "s", bytesOf("ab")), "z": jv("null"),
 				"arr": jv("arr", "els", []obj{jv("num", "q", 64), jv("num", "q", 128), jv("num", "q", 192)}),
 				"s":   jv("str", "s", bytesOf("1.5")),
+			}
+			if g.rich {
+				ctx["h"] = jv("hash", "pairs", [][]interface{}{{bytesOf("k"), jv("num", "q", 128)}})
+				ctx["pat"] = jv("str", "s", bytesOf("^a"))
+				ctx["t"] = jv("bool", "b", true)
+				ctx["incname"] = jv("str", "s", bytesOf("inc"))
 			}
 			b, err := json.Marshal(obj{"id": fmt.Sprintf("x%d-%d", seed, i), "k": "render", "env": "core", "tpls": tpls, "entry": entry, "ctx": ctx})
 			if err != nil {
